@@ -147,6 +147,17 @@ def hand_specs():
     s["location"] = None
     s["ops"] = [op("a", out=None), op("b")]
     specs.append(s)
+    # header and body parts of one message, names containing one another, several tokens
+    s = copy.deepcopy(base)
+    m1 = {"name": "echoIn", "parts": [{"name": "request", "kind": "element", "ref": "Eecho"}, {"name": "requestHeader", "kind": "element", "ref": "Ecred"}]}
+    m2 = {"name": "multiIn", "parts": [{"name": "re", "kind": "element", "ref": "Em0"}, {"name": "req", "kind": "element", "ref": "Em1"}, {"name": "request", "kind": "element", "ref": "Em2"},
+                                       {"name": "requestHeader", "kind": "element", "ref": "Em3"}, {"name": "Header", "kind": "element", "ref": "Em4"}]}
+    m3 = {"name": "multiOut", "parts": [{"name": "st", "kind": "element", "ref": "Eo0"}, {"name": "status", "kind": "element", "ref": "Eo1"}]}
+    s["ops"] = [
+        op("echo", in_sel=["request"], in_headers=[{"msg": m1, "part": "requestHeader"}], **{"in": m1}),
+        op("multi", in_sel=["request", "re"], in_headers=[{"msg": m2, "part": "requestHeader"}, {"msg": m2, "part": "req"}], out_sel=["status"], **{"in": m2, "out": m3}),
+    ]
+    specs.append(s)
     return specs
 
 
@@ -715,10 +726,14 @@ def in_fragment(spec):
     return True
 
 
-def selected(op):
-    parts = op["in"]["parts"]
-    if op.get("in_sel"):
-        parts = [p for p in parts if p["name"] in op["in_sel"]]
+def selected(op, direction="in"):
+    """WSDL 1.1 3.5: `parts=` is a list of part *names* (nmtokens): a part is in the body iff its
+    name equals one of the tokens; no list = all parts. Message order is kept."""
+    parts = op["in" if direction == "in" else "out"]["parts"]
+    sel = op.get("in_sel" if direction == "in" else "out_sel")
+    if sel:
+        tokens = set(sel)
+        parts = [p for p in parts if any(p["name"] == t for t in tokens)]
     return parts
 
 
@@ -728,15 +743,17 @@ def prescribed_body(spec, op, direction):
     if style == "rpc":
         name = op["name"] if direction == "in" else op["name"] + "Response"
         return [(name, op.get("body_ns"))]
-    parts = selected(op) if direction == "in" else op["out"]["parts"]
+    parts = selected(op, direction)
     return [(p["ref"], spec["xns"]) if p["kind"] == "element" else (p["name"], "*") for p in parts]
 
 
 def prescribed_headers(spec, op, direction):
     out = []
     for h in op.get("in_headers" if direction == "in" else "out_headers", []):
-        p = next(p for p in h["msg"]["parts"] if p["name"] == h["part"])
-        out.append((p["ref"], spec["xns"]))
+        # soap:header part= names exactly one part of the message (equality, WSDL 1.1 3.7)
+        for p in h["msg"]["parts"]:
+            if p["name"] == h["part"]:
+                out.append((p["ref"], spec["xns"]))
     return out
 
 
@@ -756,7 +773,8 @@ def check_mapper(a):
     except Exception as e:  # noqa: BLE001
         return f"mapping a definition of the supported fragment failed: {type(e).__name__}: {e}"
     by = {c.qname: c for c in classes}
-    for op in spec["ops"]:
+
+    def check_op(op):
         base = f"{{{spec['tns']}}}{spec['pt']}_{op['name']}"
         svc = by.get(base)
         if svc is None or svc.tag != "BindingOperation":
@@ -812,7 +830,16 @@ def check_mapper(a):
             else:
                 if any(x.restrictions.min_occurs is not None for x in body.attrs):
                     return f"{base + sfx}: request Body entries must be required"
-    return None
+        return None
+
+    known = None
+    for op in spec["ops"]:
+        msg = check_op(op)
+        if msg:
+            if covered_spec({"spec": {**spec, "ops": [op]}}, msg) is None:
+                return msg
+            known = known or msg
+    return known
 
 
 # ---- end-to-end oracle ---------------------------------------------------
@@ -947,7 +974,7 @@ def canned_response(spec, op, fault=None, fault_with_header=False):
         inner = "".join(elem(p["ref"]) if p["kind"] == "element" else typed(p["name"], p["ref"], ' xmlns=""') for p in op["out"]["parts"])
         body = f'<w:{w} xmlns:w="{op["body_ns"]}">{inner}</w:{w}>'
     else:
-        body = "".join(elem(p["ref"]) if p["kind"] == "element" else None for p in op["out"]["parts"])
+        body = "".join(elem(p["ref"]) if p["kind"] == "element" else None for p in selected(op, "out"))
     xml = f'<e:Envelope xmlns:e="{ENV}">{hdr}<e:Body>{body}</e:Body></e:Envelope>'
     return xml.encode(), leaves
 
@@ -970,7 +997,7 @@ def object_leaves(obj):
 
 
 def doc_typed_parts(spec, op, direction):
-    parts = selected(op) if direction == "in" else op["out"]["parts"]
+    parts = selected(op, direction)
     return G.effective_style(spec, op) != "rpc" and any(p["kind"] == "type" for p in parts)
 
 
@@ -993,10 +1020,7 @@ def check_e2e(a):
             for k, v in vars(mod).items():
                 if isinstance(v, type) and hasattr(v, "input") and not dataclasses.is_dataclass(v):
                     services[k.lower()] = v
-        for src in g.sources().values():
-            if "##lazy" in src:
-                return "[lazy] generated code carries the internal marker '##lazy' as an XML namespace"
-        for op in spec["ops"]:
+        def check_op(op):
             key = (spec["pt"] + op["name"]).lower()
             svc = services.get(key)
             if svc is None:
@@ -1107,6 +1131,22 @@ def check_e2e(a):
                         return f"SOAP fault not returned: {f!r}"
                     if sorted(object_leaves(res2)) != sorted(fleaves):
                         return f"fault detail lost: {sorted(object_leaves(res2))} != {sorted(fleaves)}"
+            return None
+
+        # every operation is judged; a failure that falls under a known finding does not hide
+        # a different failure of another operation of the same definition
+        known = None
+        for src in g.sources().values():
+            if "##lazy" in src:
+                known = "[lazy] generated code carries the internal marker '##lazy' as an XML namespace"
+        for op in spec["ops"]:
+            msg = check_op(op)
+            if msg:
+                if covered_spec({"spec": {**spec, "ops": [op]}}, msg) is None:
+                    return msg
+                known = known or msg
+        if known:
+            return known
         return None
     finally:
         g.close()
